@@ -99,6 +99,22 @@ func (d *drv) runTrace(id int, r *rand.Rand) {
 		if len(t.hist) > 0 {
 			add(4+mode/3, func() { t.hist[r.Intn(len(t.hist))]() })
 		}
+		// the other block of a generator that proposed twice gets notarized as well (late: the node has left the round)
+		if pr := d.nodeRound(cur - 1); pr != nil && cur > 1 {
+			nbGen := map[int]bool{}
+			inNb := map[string]bool{}
+			for _, nb := range pr.GetNotarizedBlocks() {
+				if x, ok := t.byHash[nb.Hash]; ok {
+					nbGen[x.gen] = true
+					inNb[x.name] = true
+				}
+			}
+			for _, pb := range pr.GetProposedBlocks() {
+				if x, ok := t.byHash[pb.Hash]; ok && !inNb[x.name] && nbGen[x.gen] {
+					add(8+mode, func() { d.sendNotarization(1+r.Intn(nMiners-1), x, []int{1, 2, 3}, nil, false) })
+				}
+			}
+		}
 		shares := mr.GetVRFShares()
 		ps := d.prevSeed(cur)
 		blocked := mr.GetPhase() == round.Complete
